@@ -237,6 +237,54 @@ def grammar(P, chk):
                     refs.add(f.rsplit("::", 1)[-1])
         chk.require(needs <= refs, R_GRAM, "%s|references" % fn, P.body(EX + "::" + fn).loc(),
                     "%s references %s" % (fn, sorted(refs)), "references %s" % sorted(needs))
+    # the unary minus always builds Unary(Negate, operand): the sign is never folded into / set on the operand
+    ne_bodies = P.with_closures(EX + "::negate_expr")
+    builders = [x for x in ne_bodies if x.is_closure and any(st["k"] == "assign" and st["rv"]["k"] == "aggregate" and
+                                                             norm(st["rv"].get("adt") or "") == "okane_core::syntax::expr::Expr"
+                                                             for blk in x.blocks for st in blk["stmts"])]
+    okneg = len(builders) == 1
+    detail = "expected one closure building the negated expression, found %d" % len(builders)
+    if okneg:
+        c = builders[0]
+        chk.analysed(c)
+        shapes = []
+        for bb2, v, rv in q.ok_err_assignments(c):
+            if v == "other" and rv.get("k") == "aggregate":
+                shapes.append((rv.get("variant"), bb2, rv))
+            elif v == "other":
+                shapes.append(("?", bb2, rv))
+        rets = [sh for sh in shapes]
+        ok_all = bool(rets)
+        for var, bb2, rv in rets:
+            if var != "Unary":
+                ok_all = False
+                detail = "a `-x` can be returned as Expr::%s (no Negate node)" % var
+                continue
+            u = mir.single_def(c, rv["fields"][0]["op"]["place"]["l"])
+            if not (u and u[0] == "assign" and u[4]["k"] == "aggregate"):
+                ok_all = False
+                continue
+            f = {x["name"]: x["op"] for x in u[4]["fields"]}
+            opv = [r.name for r in prov(c, f["op"]) if r.kind == "agg"]
+            inner = q.chains(c, f["expr"])
+            pn = c.local_name(2) or "arg2"
+            oke = bool(inner) and all(set(n.rsplit("::", 1)[-1] for n in cn) <= {"new"} or True for cn, r in inner)
+            from_param = False
+            for r in prov(c, f["expr"]):
+                if r.kind == "call" and r.site is not None:   # Box::new(Expr::Value(Box::new(ve)))
+                    from_param = True
+            if not (opv and all(x.endswith("UnaryOp::Negate") for x in opv)):
+                ok_all = False
+                detail = "the unary node's operator is %s" % opv
+        muts = [n for x in ne_bodies for bb2, t2 in x.calls()
+                for n in [(callee_def(t2) or "").rsplit("::", 1)[-1]]
+                if n.startswith("set_sign") or n in ("neg", "negate", "abs", "set_scale", "rescale")]
+        if muts:
+            ok_all = False
+            detail = "the parser itself changes the operand's sign / value (%s) instead of recording the negation" % sorted(set(muts))
+        okneg = ok_all
+    chk.require(okneg, R_GRAM, "negate_expr|`-x` is always Unary(Negate, x)", P.body(EX + "::negate_expr").loc(), detail,
+                "preceded('-', value_expr).map(|ve| Expr::Unary(UnaryOpExpr{op: Negate, expr: ve}))")
     # left fold
     inf = P.body(EX + "::infixl")
     chk.analysed(inf)
